@@ -14,7 +14,7 @@ RULE = ("the matrix (invalid-specification class x entry point that reaches it) 
 ASSUMPTIONS = ["any exception type raised from package code counts as a rejection", "cases whose valid variant raises are discards"]
 
 BOTH_ENTRY = ["driving-force", "solver", "permeate-composition", "separation-factor", "ideal-curve", "nonideal-curve",
-              "ideal-iso", "ideal-noniso", "nonideal-iso", "nonideal-noniso", "pure-flux", "curve-from-fluxes"]
+              "ideal-iso", "ideal-noniso", "nonideal-iso", "nonideal-noniso", "pure-flux", "curve-from-fluxes", "curve-from-table"]
 MODEL_ENTRY = ["activity-coefficients", "partial-pressures", "driving-force", "solver", "permeate-composition", "separation-factor",
                "ideal-curve", "ideal-iso", "ideal-noniso"]
 CELLS = ([("both-permeate", e) for e in BOTH_ENTRY]
@@ -41,6 +41,8 @@ def strategy(draw, cells):
     c["zero_permeances"] = draw(st.integers(0, 3)) == 0
     c["numtype"] = draw(st.sampled_from(["float", "float", "numpy.float64", "numpy.float32", "int"]))  # type of the two permeate values
     c["reuse"] = draw(st.booleans())  # process entries: the SAME Conditions object, made contradictory after a valid run
+    c["table_mixture"] = draw(st.sampled_from(gen.BUILTIN_MIXTURES))
+    c["table_blank"] = draw(st.sampled_from(["none", "pressure", "temperature"]))
     c["lone"] = draw(st.integers(1, 2))  # which component has the single experiment without Ea (listed first or after the other)
     c["x"] = draw(gen.uniform(0.15, 0.85))
     if cls not in ("both-permeate",) and draw(st.integers(0, 3)) == 0:
@@ -122,6 +124,22 @@ def _entry(case, s, entry, tp, pp, mdl, mix=None, pv=None):
     if entry == "curve-from-fluxes":
         return call(build.DiffusionCurve, mixture=mix, membrane_name="M", feed_temperature=t, feed_compositions=[comp],
                     partial_fluxes=[(0.3, 0.01)], permeate_temperature=tp, permeate_pressure=pp)
+    if entry == "curve-from-table":
+        # the tabulated form of the same construction (DiffusionCurve.from_frame, the CSV layout); curve-level columns are read from
+        # the first row, later rows may leave them blank
+        import pandas
+
+        from pyvaporation.diffusion_curve.diffusion_curve import DC_SET_COLUMNS
+
+        n, blank = 3, case.get("table_blank", "none")
+        col = lambda v, name: [v] + [None if blank == name else v] * (n - 1)
+        frame = pandas.DataFrame({
+            "curve_id": ["1"] * n, "membrane_name": ["M"] * n, "mixture": [build.fresh(case.get("table_mixture", "H2O_EtOH"))] * n,
+            "feed_temperature": [t] * n, "permeate_temperature": col(tp, "temperature"), "permeate_pressure": col(pp, "pressure"),
+            "composition": [0.1, 0.2, 0.3], "composition_type": [build.fresh("weight")] * n,
+            "partial_flux_1": [0.3, 0.4, 0.5], "partial_flux_2": [0.01, 0.01, 0.01],
+            "permeance_1": [None] * n, "permeance_2": [None] * n, "units": [None] * n, "comment": [None] * n})[DC_SET_COLUMNS]
+        return call(build.curve_from_frame, frame)
     raise AssertionError(entry)
 
 
@@ -175,16 +193,17 @@ def check(case):
                 full1 = c1 if c1.uniquac_constants is not None else attr.evolve(c1, uniquac_constants=build.UNIQUACConstants(r=uq1["r"], q_geometric=uq1["q"]))
                 full2 = c2 if c2.uniquac_constants is not None else attr.evolve(c2, uniquac_constants=build.UNIQUACConstants(r=uq2["r"], q_geometric=uq2["q"]))
                 uqp = s.mix.uniquac_params or build.uniquac(case["other_model_params"])
-                good = build.Mixture(name="G", first_component=full1, second_component=full2, nrtl_params=s.mix.nrtl_params, uniquac_params=uqp)
+                # the complete and the incomplete mixture carry the SAME name (two parameterisations of one system), the complete one is used first
+                good = build.Mixture(name="SYS", first_component=full1, second_component=full2, nrtl_params=s.mix.nrtl_params, uniquac_params=uqp)
                 if cls == "nrtl-without-parameters":
-                    want, broken = "NRTL", build.Mixture(name="B", first_component=full1, second_component=full2, uniquac_params=uqp)
+                    want, broken = "NRTL", build.Mixture(name="SYS", first_component=full1, second_component=full2, uniquac_params=uqp)
                 elif cls == "uniquac-without-parameters":
-                    want, broken = "UNIQUAC", build.Mixture(name="B", first_component=full1, second_component=full2, nrtl_params=s.mix.nrtl_params)
+                    want, broken = "UNIQUAC", build.Mixture(name="SYS", first_component=full1, second_component=full2, nrtl_params=s.mix.nrtl_params)
                 else:
                     want = "UNIQUAC"
                     b1 = attr.evolve(full1, uniquac_constants=None) if cls.endswith("1") else full1
                     b2 = attr.evolve(full2, uniquac_constants=None) if cls.endswith("2") else full2
-                    broken = build.Mixture(name="B", first_component=b1, second_component=b2, nrtl_params=s.mix.nrtl_params, uniquac_params=uqp)
+                    broken = build.Mixture(name="SYS", first_component=b1, second_component=b2, nrtl_params=s.mix.nrtl_params, uniquac_params=uqp)
                 pv_good = build.Pervaporation(membrane=build.membrane(case["membrane"], good), mixture=good)
                 pv_bad = build.Pervaporation(membrane=build.membrane(case["membrane"], broken), mixture=broken)
                 ok = _entry(case, s, entry, None, None, want, mix=good, pv=pv_good)
